@@ -278,7 +278,7 @@ func equalInts(a, b []int) bool {
 
 func (propC06) Meta() PropMeta {
 	return PropMeta{
-		Rule: "each case = one topology (Fork(n), Split(n), Split(n)->Join) with a feeder task (adds 1..L then closes the input), one reader task per output (reads until ok=false, then 1-2 more reads that must also report ok=false) and main calling Wait() on the simulated wait group, run under one seeded schedule. The complete small matrix (3 topologies x fan-out 2..3 x capacity 1..2 x length 0..4 = 60 configurations) is cycled by case index in every tier; one case in ten (quick) or every second case (thorough) draws a large configuration (fan-out 2..8, capacity 1..4, length 0..24 quick / 0..64 thorough, bursty feeder). Oracles: per-output sequences equal the specified ones, every reader ends through ok=false, nothing after closure, all tasks (library helper goroutines included) finish, wait group back to zero, no panic, no data race. Non-trivial = at least 3 context switches; distinct = distinct (configuration, schedule trace).",
+		Rule: "each case = one topology (Fork(n), Split(n), Split(n)->Join) with a feeder task (adds 1..L then closes the input), one reader task per output (reads until ok=false, then 1-2 more reads that must also report ok=false) and main calling Wait() on the simulated wait group, run under one seeded schedule. The complete small matrix (3 topologies x fan-out 2..3 x capacity 1..2 x length 0..4 = 60 configurations) is cycled by case index in every tier; one case in ten (quick) or every second case (thorough) draws a large configuration (the three topologies or the chains Split->Join->Fork(2) and Fork(2)->Split->Join; fan-out 2..8, capacity 1..6, length 0..48 quick / 0..96 thorough, bursty feeder). Oracles: per-output sequences equal the specified ones, every reader ends through ok=false, nothing after closure, all tasks (library helper goroutines included) finish, no helper still running when the caller's Wait() returns, wait group back to zero, no panic, no data race. Non-trivial = at least 3 context switches; distinct = distinct (configuration, schedule trace).",
 		Assumptions: []string{
 			"configurations are enumerated, schedules are sampled",
 			"helper goroutines are adopted through the rewritten go statements; the caller's wait group is the simulator's",
